@@ -66,6 +66,18 @@ claim('C17',
       'as_matrix() entry by entry under integer operator maps.',
       'Integer coefficients/operator maps; trees up to height 5, automata up to 5 states / 11 edges / L<=5; ids of the '
       'returned graph are not compared (gauge), only meaning, consistency, length, widths and simplifiedness.')
+claim('C20',
+      'TLC model checking of the width bound in OpChains.tla (negative control with arbitrary covers) and of MergeShrinks '
+      'in OpGraph.tla + TLC trace validation of real compilations (minimum cover at every site, widths) + TLC-evaluated '
+      'operator Schmidt rank (Gaussian elimination over GF(p) in RankOps.tla, TraceCompact.tla) of the dense operators',
+      'With minimum covers the model never has more nodes at a cut than chains (and violates this as soon as '
+      'ChooseCover may take any cover); simplify never widens a layer. Real compilations are validated site by site '
+      '(the cover used is a minimum vertex cover by the matching/cover certificate). For every built-in model built '
+      'through chains, the automaton or the optimized molecular path, every L in dense reach and every cut, TLC computes '
+      'the rank of the dense operator reshaped across the cut for three independent random integer parameter draws and '
+      'requires bond_dim = max rank.',
+      'Rank over two primes < 46341 cross-checked with an exact rational rank; dense operator from as_matrix(); matrix '
+      'sizes bounded (quick: L<=4 for d=2, thorough: L<=6).')
 
 def main():
     props = [json.loads(l) for l in open(os.path.join(VERIF, 'properties.jsonl'))]
